@@ -17,8 +17,9 @@
  3. code -> spec: long seeded random runs (hundreds of Messages, random segmentation, 0-byte and 1-byte results, one byte at a time),
     GwAbs monitor on all of them; the event logs of some are validated by TLC against GwAbs (GwAbsTrace, every gateway type) and, call by
     call with the real constants, against GwBinaryImpl (GwBinaryTrace).
- 4. directed cases of the open known findings F12 (empty chunk hides the rest) and F41 (templating receiver keeps its old inflater when the
-    sender's zlib level changes; found by this check).
+ 4. directed cases of the open known findings F12 (empty chunk hides the rest), F41 (templating receiver keeps its old inflater when the
+    sender's zlib level changes) and F42 (two layouts with the same template id: the second Message arrives altered); F41 and F42 were found
+    by this check.
 """
 import concurrent.futures as cf, copy, json, os, re, threading, time
 import vlib, pathcover
@@ -147,9 +148,11 @@ def _run(v, tier, seed):
 
     def harness(p, args, what, timeout=None):
         t = time.time()
-        rc, out, err = vlib.run([prog[p]] + [str(a) for a in args], timeout=timeout or HTO)
+        rc, out, err = vlib.run([prog[p]] + [str(a) for a in args], timeout=timeout or HTO, env=henv_box[0])
         if timing: vlib.log("  [%.0fs] %s %s: %.1fs" % (time.time() - T0, p, what, time.time() - t))
         if rc != 0: raise vlib.MachineryError("%s %s failed rc=%s: %s %s" % (p, what, rc, out[-500:], err[-2000:]))
+
+    henv_box = [None]
 
     def judge(rows, what, tag):
         """rows of a harness report -> verdicts; returns the summary row"""
@@ -173,7 +176,9 @@ def _run(v, tier, seed):
     rep = W("directed.ndjson")
     harness("gw", ["directed", rep], "directed")
     s = judge(vlib.read_ndjson(rep), "directed case", "directed")
-    notes["f12_reproduced"] = s.get("f12_reproduced"); notes["f41_reproduced"] = s.get("f41_reproduced")
+    notes["f12_reproduced"] = s.get("f12_reproduced"); notes["f41_reproduced"] = s.get("f41_reproduced"); notes["f42_reproduced"] = s.get("f42_reproduced")
+    # F42 (template id collision): while it reproduces, the random runs do not queue colliding pairs on templating connections
+    henv_box[0] = None if s.get("f42_reproduced") else {"C03_ALLOW_TEMPLATE_COLLISIONS": "1"}
     # sender-side zlib level changes while the connection is up: the plain gateway always, the templating one once F41 is repaired
     groups = [list(g) for g in GW_GROUPS]
     groups[1].append("bin_lvl")
@@ -199,7 +204,7 @@ def _run(v, tier, seed):
             else: r = tlc("GwBinaryTrace", "BinTrace.cfg", 1, 2400, env={"TRACE": cat}, heap="6g")
             return r, cat, n
         E = []
-        runs, msgs, traced, tmsgs = (40, 150, 1, 50) if quick else (int(1500 * scale) + 8, 300, int(6 * scale) + 1, 300)
+        runs, msgs, traced, tmsgs = (80, 150, 1, 50) if quick else (int(1500 * scale) + 8, 300, int(7 * scale) + 1, 300)
         for i, g in enumerate(groups): E.append(ex.submit(explore, "gw", g, "g%d" % i, runs, msgs, traced, tmsgs, seed))
         for p, g in C_GROUPS: E.append(ex.submit(explore, p, g, p, runs, msgs, traced, tmsgs, seed))
         # the trace binding rejects a corrupted log
@@ -299,7 +304,7 @@ def _run(v, tier, seed):
             if tag == "m2": selfrep.append(ex.submit(selftest_replay, beh))
             return beh, st, fs, bf
         selfrep = []
-        G = [ex.submit(gen_and_replay, "m2", 2, (1, 2, 3), 1 if quick else 3)]     # quick: each behaviour in one of the three concretisations (by its number), thorough: in all three
+        G = [ex.submit(gen_and_replay, "m2", 2, (1, 2, 3), 2 if quick else 3)]     # quick: each behaviour in two of the three concretisations (by its number), thorough: in all three
         if not quick: G.append(ex.submit(gen_and_replay, "m3", 3, (1, 3), 1))
 
         def simulate(tag, msgs, steps, num):
@@ -398,8 +403,8 @@ def _run(v, tier, seed):
             RJ.append(ex.submit(reach, "GwCodecHistory", codec_cfg("Reach_codec_nodr", levels=(6,), indep=True, bug="no_deflate_reset", invs=["HistoryInSync"]), "HistoryInSync", "GwCodecHistory no_deflate_reset"))
             RJ.append(ex.submit(reach, "GwCodecHistory", codec_cfg("Reach_codec_noir", levels=(6,), indep=True, bug="no_inflate_reset", invs=["HistoryInSync"]), "HistoryInSync", "GwCodecHistory no_inflate_reset"))
         # vacuity: every invariant fails on a wrong variant (quick: one or two per specification, thorough: all)
-        sel = (lambda xs: xs[:1]) if quick else (lambda xs: xs)
-        for bug, inv in (BIN_REACH if not quick else [BIN_REACH[i] for i in (2, 7)]):
+        sel = (lambda xs: xs[:2]) if quick else (lambda xs: xs)
+        for bug, inv in (BIN_REACH if not quick else [BIN_REACH[i] for i in (0, 2, 5, 6, 7)]):
             if inv == "Delivers": c = bin_cfg("Reach_%s_%s" % (bug, inv), spec="FairSpec", msgs=2, args=(1, 3), bug=bug, props=["Delivers"]); exp = "temporal"
             elif inv == "AbsSpec": c = bin_cfg("Reach_%s_%s" % (bug, inv), msgs=2, args=(1, 3), bug=bug, props=["AbsSpec"]); exp = "AbsSpec"
             else: c = bin_cfg("Reach_%s_%s" % (bug, inv), msgs=2, args=(0, 1, 2, 3, 7), bug=bug, invs=[inv]); exp = inv
@@ -496,7 +501,7 @@ def _run(v, tier, seed):
             for k in mn: mn[k] += s.get(k, 0)
 
         # collect: random runs and their logs
-        exs = {"runs": 0, "messages": 0, "io_calls": 0, "zero_byte_results": 0, "one_byte_results": 0, "items_delivered": 0, "bytes_moved": 0, "trace_lines": 0, "traced_runs": 0}
+        exs = {"runs": 0, "messages": 0, "io_calls": 0, "zero_byte_results": 0, "one_byte_results": 0, "items_delivered": 0, "bytes_moved": 0, "trace_lines": 0, "traced_runs": 0, "messages_skipped_known_finding": 0}
         abs_lines = 0; bin_lines = 0; abs_logs = []; bin_logs = []
         for f in E:
             tag, rows, ab, bn = f.result()
@@ -551,12 +556,13 @@ def _run(v, tier, seed):
            "rule": "behaviours = path cover of EVERY transition of the TLC state graph of GwBinaryImpl (HS=2, SCR=5, bodies below / at / above the scratch size, maxBytes 1,2,3,unlimited, every transport budget) "
                    "and of GwTemplateCache; distinct by construction (each adds an uncovered transition; simulated ones de-duplicated by hash); each replayed under every gateway configuration in 1-3 concretisations; "
                    "non-trivial = followed to the end with every item handed over equal to the item queued, everything delivered at quiescence and (MessageIOGateway framing) every call equal to the specification's step",
-           "exhaustive": True, "per_configuration": per_cfg, "model_runs": mc_notes, "generation_instances": gen_notes, "f12_directed_cases_reproduced": notes.get("f12_reproduced"), "f41_directed_case_reproduced": notes.get("f41_reproduced"),
+           "exhaustive": True, "per_configuration": per_cfg, "model_runs": mc_notes, "generation_instances": gen_notes, "f12_directed_cases_reproduced": notes.get("f12_reproduced"), "f41_directed_case_reproduced": notes.get("f41_reproduced"), "f42_directed_case_reproduced": notes.get("f42_reproduced"), "random_messages_skipped_because_of_F42": exs.get("messages_skipped_known_finding"),
            "samples": samples[:10]}
     assumptions = ["the transport is a reliable byte stream (no loss, duplication, reordering or corruption of bytes: hostile bytes are property C02, packet transports C12); it may deliver any number of bytes per call, including 0",
                    "byte identity in GwBinaryImpl is the position in the sender's output stream; content-dependent encodings (zlib history, templates) are bound by comparing the flattened bytes of real Messages end to end, "
                    "with identical repeats and templatable / non-templatable Messages in the menu; the zlib history dependence is model-checked separately (GwCodecHistory) and bound by the random runs with level changes (bin_lvl) and the directed case of F41, not by generated behaviours",
                    "TLC instances: 2-3 Messages per behaviour in the exhaustive graphs (6 in the simulated ones), header 2-3 units, scratch 5-6 units; the real constants 8 / 2048 are used by GwBinaryTrace on recorded runs and by the concretisation of the behaviours",
+                   "on a templating connection the random runs do not queue a Message whose template id equals that of an earlier Message of another layout while known finding F42 is open (the skipped Messages are counted)",
                    "the outgoing encoding of a templating sender stays fixed during a connection while known finding F41 is open (level changes of the plain MessageIOGateway are run)",
                    "raw and SLIP chunks of length 0 are generated only as the LAST chunk of a Message (known finding F12 otherwise); WebSocket without a slave gateway is driven with non-empty chunks only",
                    "granularity as each gateway documents itself: whole Messages (binary, templating, WebSocket with slave, mini / micro), text lines, non-empty chunks (SLIP, WebSocket without slave), the byte stream (raw; with a minimum chunk size up to min-1 bytes stay behind)",
